@@ -438,6 +438,24 @@ func (cx *world) offerBlocks(o *offer) {
 	}
 	W := cx.live.disk.LogLen()
 	after := cx.checkChain("live", fmt.Sprintf("after offer %d %s", o.idx, o.desc), live, cx.live.disk)
+	if o.kind == "tick" && after.head != nil && before != nil && after.headH != beforeH {
+		// "the interrupted blocks" of a ticker-driven import are the blocks the ticker made
+		// canonical, whatever the harness's mirror of the future queue believed (the mirror can
+		// miss a block that the node's block cache already knew): add them to what is offered
+		// again after a crash of this stimulus
+		have := map[common.Hash]bool{}
+		for _, b := range o.requeue {
+			have[b.Hash()] = true
+		}
+		for n := after.head; n != nil && !isAncestor(n, before); n = n.parent {
+			if !have[n.blk.Hash()] {
+				have[n.blk.Hash()] = true
+				o.requeue = append(o.requeue, n.blk)
+				r.Probe("ticker imported a block the queue mirror had missed")
+			}
+		}
+		sort.SliceStable(o.requeue, func(i, j int) bool { return o.requeue[i].NumberU64() < o.requeue[j].NumberU64() })
+	}
 	// what happened
 	move := "none"
 	reorged := false
